@@ -1,4 +1,6 @@
 import os
+import threading
+from concurrent.futures import ThreadPoolExecutor
 
 from .props import HDR, standard
 
@@ -9,19 +11,47 @@ from .props import HDR, standard
 def run(ctx):
     n = {"quick": 2000, "thorough": 40000}[ctx.tier]
     nx = {"quick": 3000, "thorough": 10 ** 9}[ctx.tier]   # thorough: the whole enumeration (~132 000 layouts)
+    nseq = {"quick": 120, "thorough": 4000}[ctx.tier]     # sequences of 2-4 runs of one keep-balance process against a stub cluster
+    ncoll = {"quick": 800, "thorough": 30000}[ctx.tier]  # blocks whose Desired is derived from collections by the real code
     rep = os.environ.get("VERIF_C05_BALANCE_GO")
     replace = {"services/keep-balance/balance.go": rep} if rep else None
 
+    # all four stages live in one package and use the same overlay (one compilation of the test binary); the Go
+    # harnesses run one after the other, the Coq evaluation of a stage overlaps with the next harness
+    files = ["C05/zz_verif_c05_test.go", "C05/zz_verif_c05_cluster_test.go", "C06/zz_verif_c06_page_test.go"]
+    go_lock = threading.Lock()
+    plain_go_test = ctx.go_test
+
+    def locked_go_test(*a, **kw):
+        with go_lock:
+            return plain_go_test(*a, **kw)
+    ctx.go_test = locked_go_test
+
     def stages(ctx, mult, suffix, off):
+        q = ctx.tier == "quick"
         hdr = HDR.format(imports="model.C05_model model.C05_run")
-        ctx.stage("c05" + suffix, "services/keep-balance", "main", ["C05/zz_verif_c05_test.go"], "TestVerifC05$",
-                  n * mult, hdr, seed_offset=off, shard=500 if ctx.tier == "quick" else 2500,
-                  env={"VERIF_STAGE": "c05" + suffix}, timeout=1500, replace=replace)
-        ctx.stage("c05x" + suffix, "services/keep-balance", "main", ["C05/zz_verif_c05_test.go"], "TestVerifC05X$",
-                  nx * mult, hdr, seed_offset=off, shard=500 if ctx.tier == "quick" else 2500,
-                  env={"VERIF_STAGE": "c05x" + suffix}, timeout=1500, replace=replace)
+        hdr2 = HDR.format(imports="model.C06_model model.C05_model model.C05_run model.C05_desired model.C05_sweeps model.C05_run2")
+
+        def stage(name, test, count, header, shard):
+            return ctx.stage(name + suffix, "services/keep-balance", "main", files, test, count * mult, header, seed_offset=off,
+                             shard=shard, env={"VERIF_STAGE": name + suffix}, timeout=1500, replace=replace)
+        jobs = [
+            # sequences of runs of one keep-balance process against the stub cluster (cases are CSeq terms)
+            lambda: stage("c05seq", "TestVerifC05Seq$", nseq, hdr2, 30 if q else 100),
+            # Desired derived from collections by the real addCollection, change sets by ComputeChangeSets (CColl terms)
+            lambda: stage("c05coll", "TestVerifC05Coll$", ncoll, hdr2, 200 if q else 2500),
+            lambda: stage("c05", "TestVerifC05$", n, hdr, 500 if q else 2500),
+            lambda: stage("c05x", "TestVerifC05X$", nx, hdr, 500 if q else 2500),
+        ]
+        only = [x for x in os.environ.get("VERIF_C05_STAGES", "").split(",") if x]   # debugging aid: subset of seq,coll,c05,x
+        if only:
+            jobs = [j for j, nm in zip(jobs, ["seq", "coll", "c05", "x"]) if nm in only]
+        with ThreadPoolExecutor(max_workers=4) as ex:
+            for f in [ex.submit(j) for j in jobs]:
+                f.result()
+        ctx.stages.sort(key=lambda st: st.name)
     # F1, F10, F12, F8 are repaired in /repo: no known-finding bit is accepted, any such case is a violation
-    return standard(ctx, "C05", ["model/C05_run.vo"], stages, known_bits={},
+    return standard(ctx, "C05", ["model/C05_run.vo", "model/C05_run2.vo"], stages, known_bits={},
                     rule="layouts generated in 7 strata (general; shared device x empty better-ranked slot; one class twice on a server x "
                          "non-member mount elsewhere; desired class without mount; all read-only; comparator ties; no replica) plus the "
                          "enumeration of two small scopes (X1: 1-4 single-mount services, replica state x Replication x one shared pair x "
